@@ -336,15 +336,54 @@ Definition strict_enum (c : column) : bool :=
 Definition ev_of (c : column) : option (list bytes) :=
   match c with ColEnum vals _ => Some vals | _ => None end.
 
+(* the declared values of an enum column are pairwise different (what NewFactory asks of a declaration; every
+   enum column built by the repaired factory has this) *)
+Definition enum_decl_nodup (c : column) : bool :=
+  match c with ColEnum vals _ => nodup_values vals | _ => true end.
+
+Lemma nodup_values_spec l : nodup_values l = true <-> NoDup l.
+Proof.
+  induction l as [|x l IH]; cbn [nodup_values].
+  - split; [constructor|reflexivity].
+  - rewrite andb_true_iff, negb_true_iff, IH. split.
+    + intros [Hx Hn]. constructor; [|exact Hn]. intro Hin.
+      assert (existsb (bytes_eqb x) l = true) by (apply existsb_exists; exists x; split; [exact Hin|apply bytes_eqb_refl]).
+      congruence.
+    + intro H. inversion H as [|? ? Hx Hn]; subst. split; [|exact Hn].
+      destruct (existsb (bytes_eqb x) l) eqn:E; [|reflexivity].
+      apply existsb_exists in E as (y & Hy & Heq). apply bytes_eqb_spec in Heq. subst. tauto.
+Qed.
+
+(* the enum branch of columnToData rejects a declaration that lists a value twice (cells that are not all
+   ints/floats/bools: with dt = DEnum those readers are not tried at all) *)
+Lemma column_to_data_enum_duplicate_rejected e vals cells :
+  ~ NoDup vals -> column_to_data e DEnum (Some vals) cells = Fail.
+Proof.
+  intro H. assert (nodup_values vals = false) as Hn.
+  { destruct (nodup_values vals) eqn:E; [|reflexivity]. exfalso. apply H. apply nodup_values_spec. exact E. }
+  unfold CsvRead.column_to_data. rewrite andb_false_r. cbn iota. rewrite Hn. cbn [negb].
+  destruct (Nat.ltb enum_max_cardinality (length vals)); reflexivity.
+Qed.
+
+(* ... hence an enum column read successfully has a duplicate-free declaration *)
+Lemma column_to_data_enum_ok_nodup e vals cells c :
+  column_to_data e DEnum (Some vals) cells = Ok c -> NoDup vals.
+Proof.
+  intro H. destruct (nodup_values vals) eqn:E; [apply nodup_values_spec; exact E|].
+  rewrite column_to_data_enum_duplicate_rejected in H; [discriminate|].
+  intro Hn. apply nodup_values_spec in Hn. congruence.
+Qed.
+
 (* reading back one column *)
 Lemma column_roundtrip e c ev :
   col_in_int64 c = true ->
   enum_side_ok e c = true ->
   strict_enum c = true ->
+  enum_decl_nodup c = true ->
   (forall vals l, c = ColEnum vals l -> ev = Some vals) ->
   column_to_data e (dtype_of (type_name c)) ev (col_strings c) = Ok (norm_col e c).
 Proof.
-  intros Hint Henum Hstrict Hev.
+  intros Hint Henum Hstrict Hndv Hev.
   destruct c as [l|l|l|l|vals l|]; [| | | | |discriminate].
   - (* int *)
     cbn [type_name]. change (dtype_of ty_int) with DInt. rewrite typed_int. unfold all_int. cbn [col_strings].
@@ -370,6 +409,7 @@ Proof.
     apply andb_true_iff in Henum as [Hcells Hlen]. apply Nat.leb_le in Hlen.
     unfold CsvRead.column_to_data. rewrite andb_false_r. cbn iota.
     destruct (Nat.ltb enum_max_cardinality (length vals)) eqn:E; [apply Nat.ltb_lt in E; lia|].
+    cbn [enum_decl_nodup] in Hndv. rewrite Hndv. cbn [negb].
     assert (Nat.ltb 0 (length vals) = true) as Hst.
     { destruct vals; [discriminate | reflexivity]. }
     rewrite Hst. cbn [col_strings].
@@ -501,7 +541,7 @@ Proof.
 Qed.
 
 Definition col_ok (e : bool) (nc : bytes * column) : bool :=
-  col_in_int64 (snd nc) && enum_side_ok e (snd nc) && strict_enum (snd nc).
+  col_in_int64 (snd nc) && enum_side_ok e (snd nc) && strict_enum (snd nc) && enum_decl_nodup (snd nc).
 
 Lemma convert_cols_rt conf e all :
   cf_types conf = ty_entries all -> cf_empty_null conf = e -> NoDup (map fst all) ->
@@ -515,7 +555,7 @@ Proof.
   intros Hty He Hnd. induction rest as [|[name col] rest IH]; intros acc Hsub Hnd2 Hok.
   - cbn. rewrite app_nil_r. reflexivity.
   - cbn [map fst snd convert_cols]. cbn [forallb] in Hok. apply andb_true_iff in Hok as [Hc Hrest].
-    unfold col_ok in Hc. cbn [snd] in Hc. apply andb_true_iff in Hc as [Hc Hstrict].
+    unfold col_ok in Hc. cbn [snd] in Hc. apply andb_true_iff in Hc as [Hc Hndv]. apply andb_true_iff in Hc as [Hc Hstrict].
     apply andb_true_iff in Hc as [Hint Henum].
     assert (assoc name (cf_types conf) = Some (type_name col)) as Ht.
     { rewrite Hty. apply assoc_in.
@@ -523,7 +563,7 @@ Proof.
       - unfold ty_entries. apply in_map_iff. exists (name, col). split; [reflexivity|]. apply Hsub. left. reflexivity. }
     rewrite Ht, He.
     cbn [map fst] in Hnd2. apply NoDup_cons_iff in Hnd2 as [Hnot Hnd2'].
-    rewrite (column_roundtrip e col); [| exact Hint | exact Henum | exact Hstrict |].
+    rewrite (column_roundtrip e col); [| exact Hint | exact Henum | exact Hstrict | exact Hndv |].
     + cbn [obind].
       assert ((if match dtype_of (type_name col) with DEnum => true | _ => false end
                then assoc_del name (ev_entries ((name, col) :: rest))
@@ -565,10 +605,11 @@ Theorem roundtrip f tc wf doc e :
   to_csv format_float f tc = Ok doc ->
   rt_premises e (frame_len f) wf = true ->
   forallb (fun nc => strict_enum (snd nc)) wf = true ->
+  forallb (fun nc => enum_decl_nodup (snd nc)) wf = true ->
   read_csv_spec atoi parse_float atob (read_conf_for e (tc_header tc) wf) doc
   = Ok (map (fun nc => (fst nc, norm_col e (snd nc))) wf).
 Proof.
-  intros Hiter Hcsv Hprem Hstrict.
+  intros Hiter Hcsv Hprem Hstrict Hndv.
   unfold rt_premises in Hprem. apply andb_true_iff in Hprem as [Hprem Hdup].
   apply andb_true_iff in Hprem as [Hne Hcols]. rewrite forallb_forall in Hcols.
   assert (wf <> []) as Hwf by (destruct wf; [discriminate | discriminate]).
@@ -637,7 +678,7 @@ Proof.
     rewrite Hcn. reflexivity.
   - auto.
   - apply forallb_forall. intros nc Hnc. unfold col_ok.
-    rewrite forallb_forall in Hstrict. rewrite (Hstrict nc Hnc), andb_true_r.
+    rewrite forallb_forall in Hstrict, Hndv. rewrite (Hstrict nc Hnc), (Hndv nc Hnc), !andb_true_r.
     destruct (prem_parts e n nc (Hcols nc Hnc)) as (_ & _ & _ & P4 & P5 & _). rewrite P4, P5. reflexivity.
 Qed.
 
